@@ -257,8 +257,10 @@ func codecFor(m *rec.Rec) (*pktCodec, error) {
 			enc: func() ([]byte, int, error) { return read(d) },
 			dec: func(b []byte) (*rec.Rec, util.Message, []byte, int, error) {
 				d2 := new(protocol.DHCP)
-				if _, err := d2.Write(b); err != nil {
+				if n, err := d2.Write(b); err != nil {
 					return nil, nil, nil, 0, err
+				} else if n != len(b) {
+					return nil, nil, nil, 0, fmt.Errorf("Write reports %d bytes consumed of a %d-byte message", n, len(b))
 				}
 				e, l, err := read(d2)
 				return lib.ExtractDHCP(d2), nil, e, l, err
@@ -274,8 +276,10 @@ func codecFor(m *rec.Rec) (*pktCodec, error) {
 			enc: func() ([]byte, int, error) { return read(l) },
 			dec: func(b []byte) (*rec.Rec, util.Message, []byte, int, error) {
 				l2 := new(protocol.LLDP)
-				if _, err := l2.Write(b); err != nil {
+				if n, err := l2.Write(b); err != nil {
 					return nil, nil, nil, 0, err
+				} else if n != len(b) {
+					return nil, nil, nil, 0, fmt.Errorf("Write reports %d bytes consumed of a %d-byte message", n, len(b))
 				}
 				e, n, err := read(l2)
 				return lib.ExtractLLDP(l2), nil, e, n, err
